@@ -149,7 +149,7 @@ def install(real_mysql: bool = True, numpy: bool = False):
         'HAIL_CI_STORAGE_URI': 'gs://ci', 'HAIL_CI_GITHUB_CONTEXT': 'ci-test', 'HAIL_ORGANIZATION_DOMAIN': 'x.org',
         'HAIL_DEPLOY_STEPS': '[]', 'HAIL_WATCHED_BRANCHES': '[]', 'HAIL_TEST_TOKEN_FILE': '/dev/null',
         'HAIL_SHOULD_PROFILE': '0', 'HAIL_SHOULD_CHECK_INVARIANTS': '1', 'HAIL_BATCH_GCP_PROJECT': 'proj',
-        'INTERNAL_GATEWAY_IP': '10.0.0.1', 'HAIL_DEFAULT_PAYMENT_METHOD': 'x', 'HAIL_TERRA': 'false',
+        'INTERNAL_GATEWAY_IP': '10.0.0.1', 'HAIL_DEFAULT_PAYMENT_METHOD': 'x',
         'HAIL_IDENTITY_PROVIDER_JSON': '{"idp":"Google"}', 'HAIL_DONT_RETRY_500': '0',
         'HAIL_QUERY_ACCEPTABLE_JAR_SUBFOLDER': '/jars', 'PORT': '5000',
     }
